@@ -548,6 +548,9 @@ func (env *Env) call(x *ECall) Val {
 		return mathInt(sx("div", arg(0).T, arg(1).T))
 	case "abs":
 		return mathInt(sx("iabs", arg(0).T))
+	case "wrap64":
+		// two's complement reduction into the int64 range (what the machine computes for + - on int64)
+		return mathInt(sx("+", sx("mod", sx("+", arg(0).T, "9223372036854775808"), "18446744073709551616"), "(- 9223372036854775808)"))
 	case "clamp64":
 		return mathInt(sx("clamp64", arg(0).T))
 	case "fresh":
